@@ -113,12 +113,12 @@ def gen_pipeline(rng):
             args.append('-a%d,%d,%r,%r,%r,0.001' % (t, n, rng.uniform(0.5, 2), rng.choice([0.0, 30.0]), rng.choice([90.0, 180.0, 270.0])))
     rots, trans, scales = [], [], []
     for _ in range(rng.randint(0, 2)):
-        key = rng.choice([1, 2, 3, 0.5, 2])
+        key = rng.choice([1, 2, 3, 0.5, 2, 10, 5, -2, -1, 20, 100, 10.5, 9])
         rot = [rng.choice([0.0, 90.0, rng.uniform(-180, 180)]) for _ in range(3)]
         tag = rng.choice([None, None, rng.randint(1, nobj)])
         rots.append((float(key), rot, tag))
     for _ in range(rng.randint(0, 2)):
-        key = rng.choice([1, 2, 3, 0.5, 2])
+        key = rng.choice([1, 2, 3, 0.5, 2, 10, 5, -2, -1, 20, 100, 10.5, 9])
         tr = [rng.choice([0.0, rng.uniform(-2, 2)]) for _ in range(2)] + [rng.uniform(0.3, 2)]
         tag = rng.choice([None, None, rng.randint(1, nobj)])
         trans.append((float(key), tr, tag))
